@@ -76,6 +76,18 @@ def make_cases(table, tier, rng):
                 add(r, ci, "one-field-off")
         for r in rng.sample(rest, min(len(rest), 1200)):
             add(r, rng.randrange(len(cfgs)), "rest")
+    # framing: (a) lines longer than 64 KiB whose first 64 KiB are a well-formed four-field line of their own and whose
+    # fifth field names no known protocol; (b) accepted lines with a Unix address longer than a small PluginLogBufferSize
+    longs = [r for r in near if r["line"]["proto"] == "other" and r["line"]["ws"] == "none" and r["line"]["n"] >= 5]
+    for r in rng.sample(longs, min(len(longs), 10 if tier == "quick" else 200)):
+        for ci in rng.sample(range(len(cfgs)), 2):
+            add(r, ci, "overlong-line")
+            cases[-1]["long"] = 1
+    unixacc = [r for r in accepted if r["line"]["net"] == "unix"]
+    for r in rng.sample(unixacc, min(len(unixacc), 10 if tier == "quick" else 200)):
+        for ci in rng.sample(range(len(cfgs)), 2):
+            add(r, ci, "small-log-buffer")
+            cases[-1]["log_buf"] = rng.choice([16, 32, 64])
     return cases, {"accepted_lines": len(accepted), "one_field_off_lines": len(near), "rest_lines": len(rest), "short_lines": len(short),
                    "line_classes": len(table["rows"]), "cfg_classes": len(cfgs)}
 
